@@ -799,7 +799,11 @@ static void op_option(struct ctx *c)
                c->got_after_set = true; }
         break;
     case T_DELAY:
-        if (set) { int64_t d = (sel & 0x80) ? -(int64_t)v : (int64_t)v; err = upipe_delay_set_delay(z->upipe, d); snprintf(what, sizeof what, "delay.set_delay(%lld)", (long long)d); if (ubase_check(err)) z->opt[0] = (uint64_t)d; else c->classes |= 1u << CL_OPT_REJECTED; }
+        if (set) { int64_t d = (sel & 0x80) ? -(int64_t)v : (int64_t)v;
+#if PIPES_PROP == 20
+            if ((sel & 0x70) == 0x70) d = (sel & 0x80) ? INT64_MIN + 1 : INT64_MAX;      /* the ends of the range: accepted or refused, the getter tells */
+#endif
+            err = upipe_delay_set_delay(z->upipe, d); snprintf(what, sizeof what, "delay.set_delay(%lld)", (long long)d); if (ubase_check(err)) z->opt[0] = (uint64_t)d; else c->classes |= 1u << CL_OPT_REJECTED; }
         else if (c->skip_getters) break;
         else { int64_t got = 12345; err = upipe_delay_get_delay(z->upipe, &got); snprintf(what, sizeof what, "delay.get_delay -> %lld", (long long)got);
                if (!ubase_check(err) || got != (int64_t)z->opt[0]) FAILP(ORACLE_OPTS, "get/delay", "delay get_delay returned %lld (err %d), last accepted value is %lld", (long long)got, err, (long long)z->opt[0]);
